@@ -699,7 +699,16 @@ def task(t, res):
         return
     with owned_rng() as ch:
         u0 = ch.unowned_draws
-        if kind == "small":
+        if kind == "mixed":
+            # same-cell-count shapes interleaved in one fresh interpreter (arrays with identical bytes, different shapes)
+            per = [[(r, c, b) for b in range(R.n_graphs(r, c))] for (r, c) in t["group"]]
+            seq = [x for k in range(max(map(len, per))) for x in (p[k] for p in per if k < len(p))]
+            if t["order"] == "reversed":
+                seq = seq[::-1]
+            for (r, c, b) in seq:
+                full_graph(G(r, c, b), res, "half")
+                res.count("mixed_sequence_graphs")
+        elif kind == "small":
             for r, c in t["shapes"]:
                 for bits in range(R.n_graphs(r, c)):
                     full_graph(G(r, c, bits), res, "all")
@@ -750,11 +759,14 @@ def run(ctx):
     for t in tasks:
         t["tier"] = ctx.tier
     ctx.pmap(MOD, "task", tasks)
+    groups = [[(2, 3), (3, 2)], [(1, 4), (4, 1), (2, 2)], [(1, 3), (3, 1)]]
+    ctx.pmap(MOD, "task", [dict(kind="mixed", group=g, order=o, tier=ctx.tier) for g in groups for o in ("interleaved", "reversed")], fresh=True)
     full_shapes = SMALL + [(3, 3)] + ([] if quick else [(2, 4), (4, 2)])
     ctx.coverage.update(
         graph_spaces_complete={f"{r}x{c}": R.n_graphs(r, c) for r, c in full_shapes},
         cheap_query_spaces_complete={} if quick else {"3x4": R.n_graphs(3, 4), "4x3": R.n_graphs(4, 3)},
         structured=[f"{r}x{c}" for r, c in struct_shapes], structured_patterns=STRUCT_NAMES,
+        mixed_sequences=dict(groups=[[list(x) for x in g] for g in groups], orders=["interleaved", "reversed"], graphs=ctx.res.counters.get("mixed_sequence_graphs", 0)),
         path_candidates="every simple path of the full lattice with <= 4 cells (valid or through walls), every valid simple path <= 4 cells "
                         "with a backtracking step appended / one cell moved off the grid (-1, r, c), all ordered cell pairs as 2-cell paths, "
                         "the empty path with both empty_is_valid values",
